@@ -12,6 +12,7 @@ import (
 	"net/http"
 	"net/url"
 	"sort"
+	"strings"
 	"sync"
 	"sync/atomic"
 	"time"
@@ -26,13 +27,18 @@ import (
 // Class "e2e-throttle": "issuance through the ACME issuer on its first attempt is subject to this
 // limit per CA and account", end to end. RateLimitEvents / RateLimitEventsWindow (package
 // variables, read when the limiter of a CA + account is created) are set to a small limit N and a
-// window W; a burst of real ACMEIssuer.Issue calls (first attempts, one account, distinct names)
-// is released at instant c0 against a mock ACME CA, together with a few retries (attempts = 1,
-// which go to the test CA and are not throttled) and a burst for a second account. Observed AT THE
-// CA: the arrival instants of the newOrder requests. Sound monitor: all calls began at or after
-// c0, an order arrives after its admission, so the j-th arrival (0-based, per account) is not
-// before c0 + (j / N) * W.
+// window W. For each issuer configuration {TestCA another directory, TestCA = CA (e.g. a staging
+// endpoint configured as the main CA), TestCA empty} a burst of real ACMEIssuer.Issue calls is
+// released at instant c0 against the mock ACME CAs: first attempts (attempts = 0) and retries
+// (attempts = 1 through AttemptsCtxKey) for one account, first attempts for a second account.
+// Observed AT THE CA: the arrival instants of the newOrder requests, attributed to their calls by
+// the identifiers in the CA's log. Sound monitor: all calls began at or after c0 and an order
+// arrives after its admission, so the j-th order arrival of the first attempts of one account
+// (0-based) is not before c0 + (j / N) * W - in every configuration.
 type c17E2EPlan struct {
+	// issuer configuration: TestCA "distinct" (the test mock CA), "same" (the same directory URL as
+	// CA, e.g. a staging endpoint configured as the main CA) or "none" (empty)
+	TestCA   string `json:"test_ca"`
 	N        int `json:"rate_limit_events"`
 	WindowMs int `json:"window_ms"`
 	Calls    int `json:"first_attempts"`
@@ -41,9 +47,10 @@ type c17E2EPlan struct {
 }
 
 type c17E2EObs struct {
-	Arrivals  []int64 `json:"order_arrivals_ns"`                // production CA, first account, ascending, since c0
-	Arrivals2 []int64 `json:"order_arrivals_second_account_ns"` // production CA, second account
-	RetryArr  []int64 `json:"retry_order_arrivals_ns"`          // test CA, first account
+	FirstArr  []int64 `json:"first_attempt_order_arrivals_ns"`  // CA, first account, orders of the first attempts (by name), ascending, since c0
+	Arrivals  []int64 `json:"limited_order_arrivals_ns"`        // + the production orders that follow a test-CA success of a retry (TestCA distinct)
+	Arrivals2 []int64 `json:"order_arrivals_second_account_ns"` // CA, second account (first attempts only)
+	RetryArr  []int64 `json:"retry_order_arrivals_ns"`          // first order of each retry: test CA (distinct) or the CA itself (same / none)
 	Failed    int     `json:"calls_failed"`
 	Note      string  `json:"note,omitempty"`
 }
@@ -64,13 +71,20 @@ func c17E2ERound(env *c1719Env, p c17E2EPlan) c17E2EObs {
 	defer cancel()
 	var isss []*certmagic.ACMEIssuer
 	for _, tag := range tags {
-		iss := certmagic.NewACMEIssuer(cfg, certmagic.ACMEIssuer{CA: env.cas[0].URL, TestCA: env.cas[1].URL, Email: tag + "@example.com", Agreed: true,
-			TrustedRoots: env.cas[0].Roots(), Logger: zap.NewNop(), HTTPProxy: func(*http.Request) (*url.URL, error) { return nil, nil }})
+		tmpl := certmagic.ACMEIssuer{CA: env.cas[0].URL, Email: tag + "@example.com", Agreed: true,
+			TrustedRoots: env.cas[0].Roots(), Logger: zap.NewNop(), HTTPProxy: func(*http.Request) (*url.URL, error) { return nil, nil }}
+		switch p.TestCA {
+		case "distinct":
+			tmpl.TestCA = env.cas[1].URL
+		case "same":
+			tmpl.TestCA = env.cas[0].URL
+		}
+		iss := certmagic.NewACMEIssuer(cfg, tmpl)
 		if err := iss.PreCheck(ctx, []string{"c17.example.com"}, false); err != nil {
 			o.Note = "PreCheck: " + err.Error()
 		}
 		// register the accounts at both CAs beforehand (not throttled), so that the burst is orders only
-		for _, test := range []bool{false, true} {
+		for _, test := range []bool{false, p.TestCA == "distinct"} {
 			if _, _, err := certmagic.VerifAccountNewACMEClientWithAccount(ctx, iss, test); err != nil {
 				o.Note = "account: " + err.Error()
 			}
@@ -119,19 +133,29 @@ func c17E2ERound(env *c1719Env, p c17E2EPlan) c17E2EObs {
 	close(start)
 	done.Wait()
 	o.Failed = int(failed.Load())
+	// which order belongs to which call is read off the identifiers in the CA's log: names of first
+	// attempts begin with "h0-", names of retries with "h1-"
+	isRetry := func(od c1719Order) bool { return len(od.Names) > 0 && strings.HasPrefix(od.Names[0], "h1-") }
 	for i, tag := range tags {
-		for _, od := range env.orders(tag) {
+		retrySeen := map[string]bool{}
+		for _, od := range env.ordersWithNames(tag) {
 			switch {
-			case i == 0 && od.CA == 0:
+			case i == 1:
+				if od.CA == 0 {
+					o.Arrivals2 = append(o.Arrivals2, od.AtNs)
+				}
+			case !isRetry(od):
+				o.FirstArr = append(o.FirstArr, od.AtNs)
 				o.Arrivals = append(o.Arrivals, od.AtNs)
-			case i == 0:
+			case !retrySeen[od.Names[0]]:
+				retrySeen[od.Names[0]] = true
 				o.RetryArr = append(o.RetryArr, od.AtNs)
-			case od.CA == 0:
-				o.Arrivals2 = append(o.Arrivals2, od.AtNs)
+			default: // the production order after the retry's success at the test CA
+				o.Arrivals = append(o.Arrivals, od.AtNs)
 			}
 		}
 	}
-	for _, l := range [][]int64{o.Arrivals, o.Arrivals2, o.RetryArr} {
+	for _, l := range [][]int64{o.FirstArr, o.Arrivals, o.Arrivals2, o.RetryArr} {
 		sort.Slice(l, func(i, j int) bool { return l[i] < l[j] })
 	}
 	// stop the limiters of this round's keys (their goroutines would otherwise stay for the run)
@@ -145,25 +169,29 @@ func c17E2ERound(env *c1719Env, p c17E2EPlan) c17E2EObs {
 
 func c17E2EEmit(w *emit.Writer, p c17E2EPlan, o c17E2EObs, idx int) {
 	e := &emit.Enc{}
-	e.Int(4).Int(p.N).Z(int64(time.Duration(p.WindowMs) * time.Millisecond)).Int(p.Calls).Int(p.Retries).Int(p.Calls2).
-		ZList(o.Arrivals).ZList(o.Arrivals2).ZList(o.RetryArr).Int(o.Failed)
+	e.Int(4).Int(map[string]int{"distinct": 0, "same": 1, "none": 2}[p.TestCA]).Int(p.N).Z(int64(time.Duration(p.WindowMs) * time.Millisecond)).
+		Int(p.Calls).Int(p.Retries).Int(p.Calls2).
+		ZList(o.FirstArr).ZList(o.Arrivals).ZList(o.Arrivals2).ZList(o.RetryArr).Int(o.Failed)
 	w.Hist("class=e2e-throttle")
-	w.Hist(fmt.Sprintf("e2e_throttle: limit=%d window_ms=%d first_attempts=%d", p.N, p.WindowMs, p.Calls))
+	w.Hist(fmt.Sprintf("e2e_throttle: test_ca=%s limit=%d window_ms=%d first_attempts=%d retries=%d", p.TestCA, p.N, p.WindowMs, p.Calls, p.Retries))
 	w.Hist(fmt.Sprintf("e2e_throttle: windows_spanned=%d", (max(len(o.Arrivals), 1)-1)/max(p.N, 1)+1))
-	w.Add(emit.Case{Desc: map[string]any{"class": "e2e-throttle", "rate_limit_events": p.N, "window_ms": p.WindowMs, "first_attempts": p.Calls},
-		In: p, Obs: o, Wire: e.String(), Nontrivial: p.Calls > p.N, Key: fmt.Sprintf("e2e-throttle:%d:%d:%d:%d", p.N, p.WindowMs, p.Calls, idx)})
+	w.Add(emit.Case{Desc: map[string]any{"class": "e2e-throttle", "test_ca": p.TestCA, "rate_limit_events": p.N, "window_ms": p.WindowMs, "first_attempts": p.Calls},
+		In: p, Obs: o, Wire: e.String(), Nontrivial: p.Calls > p.N, Key: fmt.Sprintf("e2e-throttle:%s:%d:%d:%d:%d", p.TestCA, p.N, p.WindowMs, p.Calls, idx)})
 }
 
 func c17E2EPlans(tier string) []c17E2EPlan {
+	// issuer configurations {TestCA empty, TestCA != CA, TestCA == CA} x {first attempts, retries}
 	ps := []c17E2EPlan{
-		{N: 1, WindowMs: 150, Calls: 3, Retries: 2, Calls2: 1},
-		{N: 2, WindowMs: 200, Calls: 6, Retries: 2, Calls2: 2},
-		{N: 3, WindowMs: 250, Calls: 7, Retries: 1, Calls2: 3},
-		{N: 2, WindowMs: 300, Calls: 5, Retries: 3, Calls2: 2},
+		{TestCA: "same", N: 1, WindowMs: 150, Calls: 3, Retries: 2, Calls2: 1},
+		{TestCA: "distinct", N: 2, WindowMs: 200, Calls: 6, Retries: 2, Calls2: 2},
+		{TestCA: "none", N: 2, WindowMs: 200, Calls: 5, Retries: 2, Calls2: 2},
+		{TestCA: "same", N: 3, WindowMs: 250, Calls: 7, Retries: 1, Calls2: 3},
+		{TestCA: "distinct", N: 2, WindowMs: 300, Calls: 5, Retries: 3, Calls2: 2},
+		{TestCA: "none", N: 1, WindowMs: 150, Calls: 3, Retries: 0, Calls2: 1},
 	}
 	if tier == "thorough" {
-		for i := 0; i < 20; i++ {
-			ps = append(ps, c17E2EPlan{N: 1 + i%4, WindowMs: 120 + 40*(i%5), Calls: 2 + (i*3)%9, Retries: i % 3, Calls2: 1 + i%3})
+		for i := 0; i < 24; i++ {
+			ps = append(ps, c17E2EPlan{TestCA: []string{"same", "distinct", "none"}[i%3], N: 1 + i%4, WindowMs: 120 + 40*(i%5), Calls: 2 + (i*3)%9, Retries: i % 3, Calls2: 1 + i%3})
 		}
 	}
 	return ps
